@@ -60,13 +60,13 @@ def sortNat (l : List Nat) : List Nat := l.foldr insertNat []
 
 /-- canonical one-line rendering of a step's outputs: inconsistent, claimable, fails (sorted),
     fulfils (sorted), claimed; `none` when empty -/
-def showOuts (os : List Out) : String :=
+def showOuts (os : List Out) (why : FailReason := default) : String :=
   let inc := if os.contains .inconsistent then ["inconsistent"] else []
   let cl := os.filterMap fun | .claimable a k d => some s!"claimable:{a}:{k}:{d}" | _ => none
   let fails := (sortNat (os.filterMap fun | .failPart i => some i | _ => none)).map (s!"fail:{·}")
   let fuls := (sortNat (os.filterMap fun | .fulfilPart i => some i | _ => none)).map (s!"fulfil:{·}")
   let cd := os.filterMap fun | .claimed a k t => some s!"claimed:{a}:{k}:{t}" | _ => none
-  let all := inc ++ cl ++ fails ++ fuls ++ cd
+  let all := inc ++ cl ++ fails ++ (if fails.isEmpty then [] else ["why:" ++ why.name]) ++ fuls ++ cd
   if all.isEmpty then "none" else " ".intercalate all
 
 /-- c04mpp: the accumulator of one payment hash.
@@ -74,12 +74,13 @@ def showOuts (os : List Out) : String :=
          claim <known 0|1> | claimdone | failback |
          admit <allow_underpay 0|1> <onion_amt> <amt> <skim|none>   (stateless: the amount test of
            create_recv_pending_htlc_info, translated; `ok` = the HTLC goes on to the accumulator, `low` = refused)
-    answers: claimable:<amount>:<skimmed>:<deadline>  claimed:<amount>:<skimmed>:<sender_intended_total> -/
+    answers: claimable:<amount>:<skimmed>:<deadline>  claimed:<amount>:<skimmed>:<sender_intended_total>
+             why:<LocalHTLCFailureReason> after the fail:<id> tokens (the reason the HTLCs of this step were failed with) -/
 def c04mpp : Drv where
   σ := Mpp
   init := Mpp.init
   step := fun s ws =>
-    let go (op : Op) : Mpp × String := let r := step s op; (r.1, showOuts r.2)
+    let go (op : Op) : Mpp × String := let r := step s op; (r.1, showOuts r.2 (stepWhy s op))
     match ws with
     | ["new"] => (Mpp.init, "ok")
     | ["part", i, v, n, k, t, c, g, e] => go (.part (nat! i) (nat! v) (nat! n) (optNat k) (nat! t) (nat! c) (nat! g) (e == "1"))
